@@ -204,6 +204,7 @@ func checkC10(c *harness.Check) {
 		"position startpos moves g1f3 g8f6 f3g1 f6g8 g1f3 g8f6 f3g1 f6g8 e2e4", // the game goes on after a draw could have been claimed (third occurrence)
 		"position fen r3k2r/8/8/8/8/8/8/R3K2R w KQkq - 99 60 moves a1b1 a8b8",  // ... and after the hundredth half-move
 		"position startpos moves e2e4",
+		"position startpos moves g1f3 g8f6 f3g1 f6g8 g1f3 g8f6 f3g1 f6g8 g1f3 g8f6 f3g1 f6g8 g1f3 g8f6 f3g1 f6g8 e2e4 e7e5", // ... and after the FIFTH occurrence
 		"position fen " + F,
 		"position fen " + F + " moves e1g1",
 		"position fen " + F + " moves e1g1 e8c8",
@@ -229,11 +230,11 @@ func checkC10(c *harness.Check) {
 	}
 	// the lines among which words of full length are formed; shorter words use the whole alphabet
 	core := map[string]bool{}
-	for _, i := range []int{0, 1, 2, 5, 6, 9, 10, 11, 12, 16, 17, 19, 22, 23} {
+	for _, i := range []int{0, 1, 2, 5, 6, 10, 11, 12, 13, 17, 18, 20, 23, 24} {
 		core[alphabet[i]] = true
 	}
 	maxLen := c.Pick(4, 5)
-	c.Rule = fmt.Sprintf("all command words of length < %d over an alphabet of %d lines (and of that length with a last line from a core of 14) built from three games: startpos with move lists that extend one another (incl. a knight shuffle that brings the start position back two and three times, and one that plays on after the third time; a line that plays on after the hundredth half-move), another first move, a FEN with move lists that extend one another (castling both sides), the same FEN with other clocks (a longer full-move number that makes one line a textual prefix of another, full-move number 0, a running half-move clock), two FENs that spell out exactly the position (and clocks) a moves line of the alphabet reaches, two FENs that differ only in the case of one letter, a line repeated with other white space between its tokens, a FEN with move lists that contain promotions (five-character tokens), and ucinewgame; verbatim repeats, shortenings and extensions all arise as words. Every line goes to a real uci.Driver followed by the isready/readyok hand-shake. Oracle after each word: driver alive; Engine.Position(), ply, clock, full moves, draw state equal the reference game of the LAST position command alone; full board snapshot equal to a fresh driver given only that command; every continuation to depth 2 on a fork reports draws exactly where the reference game does (the repetition history is compared, not just the position). distinct_nontrivial = distinct (last command, previous command) pairs", maxLen, len(alphabet))
+	c.Rule = fmt.Sprintf("all command words of length < %d over an alphabet of %d lines (and of that length with a last line from a core of 14) built from three games: startpos with move lists that extend one another (incl. a knight shuffle that brings the start position back two and three times, and ones that play on after the third and after the fifth time; a line that plays on after the hundredth half-move), another first move, a FEN with move lists that extend one another (castling both sides), the same FEN with other clocks (a longer full-move number that makes one line a textual prefix of another, full-move number 0, a running half-move clock), two FENs that spell out exactly the position (and clocks) a moves line of the alphabet reaches, two FENs that differ only in the case of one letter, a line repeated with other white space between its tokens, a FEN with move lists that contain promotions (five-character tokens), and ucinewgame; verbatim repeats, shortenings and extensions all arise as words. Every line goes to a real uci.Driver followed by the isready/readyok hand-shake. Oracle after each word: driver alive; Engine.Position(), ply, clock, full moves, draw state equal the reference game of the LAST position command alone; full board snapshot equal to a fresh driver given only that command; every continuation to depth 2 on a fork reports draws exactly where the reference game does (the repetition history is compared, not just the position). distinct_nontrivial = distinct (last command, previous command) pairs", maxLen, len(alphabet))
 	var words [][]string
 	var gen func(w []string)
 	gen = func(w []string) {
